@@ -412,7 +412,8 @@ _STAGES = ("query", "parsing", "validation", "execution")
 
 
 def check_hooks(config, outcome_class, exp, events, tags, mw_tags,
-                crashed=False, req_id=0, strict_resolved=True):
+                crashed=False, req_id=0, strict_resolved=True,
+                skip_stages=False, preparsed=False):
     """``tags``: instrumentation tags in MultiInstrumentation order.
     ``mw_tags``: middleware tags in list order (last is outermost).
     ``outcome_class``: syntax-error | validation-error | variables-error |
@@ -464,7 +465,7 @@ def check_hooks(config, outcome_class, exp, events, tags, mw_tags,
 
     # ---- stage hooks: balanced, nested, at most once, end after start ----
     for tag in tags:
-        if tag[0] != "R":
+        if tag[0] != "R" or skip_stages:
             continue
         hist = [(k, p) for _, k, p in per_tag[tag] if p is None]
         stack = []
@@ -498,7 +499,7 @@ def check_hooks(config, outcome_class, exp, events, tags, mw_tags,
         if not crashed:
             # which stages must have run
             need = {"query"}
-            if outcome_class != "preparsed":
+            if outcome_class != "preparsed" and not preparsed:
                 need.add("parsing")
             if outcome_class != "syntax-error":
                 need.add("validation")
